@@ -276,6 +276,44 @@ func pathContains(path []unsafe.Pointer, item unsafe.Pointer) bool {
 	return slices.Contains(path, item)
 }
 
+// isNumber reports whether s is a number according to the JSON grammar:
+//
+//	-?(0|[1-9][0-9]*)(\.[0-9]+)?([eE][+-]?[0-9]+)?
+func isNumber(s string) bool {
+	digits := func() bool {
+		n := 0
+		for len(s) > 0 && isdigit(s[0]) {
+			s = s[1:]
+			n++
+		}
+		return n > 0
+	}
+	if strings.HasPrefix(s, "-") {
+		s = s[1:]
+	}
+	if strings.HasPrefix(s, "0") {
+		s = s[1:]
+	} else if !digits() {
+		return false
+	}
+	if strings.HasPrefix(s, ".") {
+		s = s[1:]
+		if !digits() {
+			return false
+		}
+	}
+	if strings.HasPrefix(s, "e") || strings.HasPrefix(s, "E") {
+		s = s[1:]
+		if strings.HasPrefix(s, "+") || strings.HasPrefix(s, "-") {
+			s = s[1:]
+		}
+		if !digits() {
+			return false
+		}
+	}
+	return s == ""
+}
+
 // isPrintableASCII reports whether s contains only printable ASCII.
 func isPrintableASCII(s string) bool {
 	for i := 0; i < len(s); i++ {
@@ -504,13 +542,10 @@ func decode(thread *starlark.Thread, b *starlark.Builtin, args starlark.Tuple, k
 				num := s[i:j]
 				i = j
 
-				// Unlike most C-like languages,
-				// JSON disallows a leading zero before a digit.
-				digits := num
-				if num[0] == '-' {
-					digits = num[1:]
-				}
-				if digits == "" || digits[0] == '0' && len(digits) > 1 && isdigit(digits[1]) {
+				// Unlike most C-like languages, JSON disallows
+				// a leading zero before a digit, and requires
+				// digits on both sides of a decimal point.
+				if !isNumber(num) {
 					fail("invalid number: %s", num)
 				}
 
